@@ -40,6 +40,7 @@ BASE = {
     'goaway': 0.01,
     'adv': 0.0,              # per-event probability of an adversary frame
     'raw_garbage': 0.0,
+    'adv_plausible': 0.7,    # after the adversary 'goes wild': share of its frames that are still valid in the victim's state   # share of adversary frames that are valid in the victim's current state
 }
 
 
@@ -56,7 +57,7 @@ PROFILES = {
     'HDR': prof(hdr_variety=1.0, config_matrix=0.5, big_headers=0.2, misuse=0.2, cl=0.3),
     'UPGRADE': prof(upgrade=1.0),
     'CORRUPT': prof(mode_b=0.05, epilogue=False, misuse=0.05),
-    'ADV': prof(adv=0.5, mode_b=0.02, epilogue=False, misuse=0.05, events=(30, 200)),
+    'ADV': prof(adv=0.5, mode_b=0.02, epilogue=False, misuse=0.05, events=(40, 300)),
     'MISUSE': prof(misuse=0.4, small_closed=0.6, fsm_misuse=1.0),
     'CLOSE': prof(goaway=0.05, misuse=0.3, fsm_misuse=1.0, epilogue=False),
     'LONG': prof(long=True, epilogue=False, misuse=0.0, events=(4000, 20000), small_closed=0.7, burst=1.0, race_start=0.0),
@@ -446,8 +447,16 @@ class Gen:
                     self.call(ep, 'update_settings', settings=d)
                     self.settle()
         i = 0
+        # the adversary behaves (frames valid in the victim's state) until a random point of the run, so that its
+        # arbitrary frames - each of which may well be the last one the connection sees - meet deep states
+        self.adv_wild_from = int(self.n_events * rng.choice([0.0, 0.3, 0.5, 0.7, 0.9]))
+        self.iter = 0
         while i < self.n_events and not self.halted:
             i += 1
+            self.iter = i
+            if P['adv'] and rng.random() < P['adv'] * 0.3:
+                self._adversary()
+                continue
             r = rng.random()
             if r < 0.42:
                 ep = rng.choice('cs')
@@ -741,6 +750,13 @@ class Gen:
         un = self.unacked[ep]
         if not un:
             return
+        if trk.closed and rng.random() < 0.7:
+            # the application works off its backlog after the connection closed: one big acknowledgement per stream
+            sid = un[0][0]
+            total = sum(n for s_, n in un if s_ == sid)
+            self.unacked[ep] = [x for x in un if x[0] != sid]
+            self.call(ep, 'acknowledge_received_data', n=total, sid=sid)
+            return
         i = rng.randrange(len(un))
         sid, n = un[i]
         part = n if rng.random() < 0.7 else rng.randrange(1, n + 1)
@@ -996,7 +1012,8 @@ class Gen:
         fsm_ok = self.fsm_misuse
         if k == 0:
             hs = rng.choice([hg.request(mf), hg.response(max_frame=mf), hg.trailers(mf), hg.invalid(max_frame=mf)])
-            if not fsm_ok and not self._headers_state_ok(trk, sid, st):
+            plain_refusal = st is None and ((sid > MAXID and e.client) or (not e.client and sid > 0))
+            if not fsm_ok and not plain_refusal and not self._headers_state_ok(trk, sid, st):
                 return
             kw = {}
             if rng.random() < 0.2:
@@ -1073,7 +1090,7 @@ class Gen:
                 return
             self.call(ep, 'update_settings', settings=d)
         elif k == 10:
-            if not fsm_ok and (e.client or (not trk.any_headers_recv)):
+            if not fsm_ok and not e.client and not trk.any_headers_recv:
                 return
             field = rng.choice([b'h2=":443"', 'notbytes'])
             which = rng.randrange(3)
